@@ -7,12 +7,14 @@ import (
 	"github.com/ajitpratap0/GoSQLX/pkg/sql/parser"
 	"os"
 	"os/exec"
+	"path/filepath"
 	"runtime"
 	"sort"
 	"strings"
 	"sync"
 	"time"
 
+	"github.com/ajitpratap0/GoSQLX/pkg/config"
 	"github.com/ajitpratap0/GoSQLX/pkg/formatter"
 	"github.com/ajitpratap0/GoSQLX/pkg/gosqlx"
 	"github.com/ajitpratap0/GoSQLX/pkg/linter"
@@ -527,4 +529,91 @@ func runC10Workload(c *runCtx) {
 		}
 	}
 	metrics.Disable()
+	c10ConfigCache(c)
+}
+
+// c10ConfigCache: the shared configuration cache under concurrent loads while entries go stale (files rewritten between
+// rounds, while nobody reads), get evicted (more files than the cache holds), are cleared and counted: every load returns
+// the value that is in the file now, and the race detector stays silent
+func c10ConfigCache(c *runCtx) {
+	res := c.res
+	dir, err := os.MkdirTemp("", "vx-c10-config-")
+	if err != nil {
+		return
+	}
+	defer os.RemoveAll(dir)
+	const nFiles = 8
+	paths := make([]string, nFiles)
+	cur := make([]int, nFiles)
+	base := time.Now().Add(-time.Hour)
+	write := func(i, val, gen int) {
+		ext := []string{".json", ".yaml"}[i%2]
+		paths[i] = filepath.Join(dir, fmt.Sprintf("c%d%s", i, ext))
+		body := fmt.Sprintf("{\"format\": {\"indent\": %d}}", val)
+		if ext == ".yaml" {
+			body = fmt.Sprintf("format:\n  indent: %d\n", val)
+		}
+		_ = os.WriteFile(paths[i], []byte(body), 0o644)
+		_ = os.Chtimes(paths[i], base.Add(time.Duration(gen)*time.Second), base.Add(time.Duration(gen)*time.Second))
+		cur[i] = val
+	}
+	for i := 0; i < nFiles; i++ {
+		write(i, 1+i, 0)
+	}
+	// filler files to push the cache past its capacity now and then
+	var fillers []string
+	for i := 0; i < 140; i++ {
+		pth := filepath.Join(dir, fmt.Sprintf("filler%03d.json", i))
+		_ = os.WriteFile(pth, []byte("{\"format\": {\"indent\": 3}}"), 0o644)
+		fillers = append(fillers, pth)
+	}
+	config.ClearConfigCache()
+	const G = 16
+	for round := 1; round <= c.n(40, 300); round++ {
+		for i := 0; i < nFiles; i++ {
+			if (i+round)%2 == 0 {
+				write(i, 1+(cur[i]+round)%9, round)
+			}
+		}
+		start := make(chan struct{})
+		var wg sync.WaitGroup
+		var mu sync.Mutex
+		bad := ""
+		for gi := 0; gi < G; gi++ {
+			wg.Add(1)
+			go func(gi int) {
+				defer wg.Done()
+				<-start
+				for k := 0; k < nFiles; k++ {
+					i := (k + gi) % nFiles
+					cfg, err := config.LoadFromFileCached(paths[i])
+					if err != nil || cfg == nil || cfg.Format.Indent != cur[i] {
+						mu.Lock()
+						got := -1
+						if cfg != nil {
+							got = cfg.Format.Indent
+						}
+						bad = fmt.Sprintf("file %d: got indent %d (err %v), the file says %d", i, got, err, cur[i])
+						mu.Unlock()
+					}
+					switch {
+					case gi == 3 && round%7 == 0:
+						_ = config.GetConfigCacheStats()
+					case gi == 5 && round%11 == 0 && k == 4:
+						config.ClearConfigCache()
+					case gi >= 12 && round%5 == 0:
+						_, _ = config.LoadFromFileCached(fillers[(gi*nFiles+k+round)%len(fillers)])
+					}
+				}
+			}(gi)
+		}
+		close(start)
+		wg.Wait()
+		res.Evaluations++
+		if bad != "" {
+			res.fail("concurrent-result-differs:config-cache", "a cached configuration load made concurrently returned something else than the file holds", map[string]any{"round": round, "goroutines": G}, map[string]any{"what": bad})
+			break
+		}
+	}
+	res.count("config-cache-rounds", true)
 }
